@@ -6,7 +6,7 @@ OUT=$1; shift
 for p in "$@"; do
   case "$p" in
     */seed_*/patch.diff) id=$(echo "$p" | sed 's#.*/seed_\([^/]*\)/patch.diff#\1#'); name="seed-$id";;
-    seeded/*/round2/patch.diff|*/seeded/*/round2/patch.diff) id=$(basename $(dirname $(dirname "$p"))); name="seed2-$id";;
+    seeded/*/round[23]/patch.diff|*/seeded/*/round[23]/patch.diff) id=$(basename $(dirname $(dirname "$p"))); name="seed$(basename $(dirname "$p") | tr -d a-z)-$id";;
     seeded/*/patch.diff|*/seeded/*/patch.diff) id=$(basename $(dirname "$p")); name="seed-$id";;
     *) b=$(basename "$p" .patch); id=${b%%-*}; name="$b";;
   esac
